@@ -26,9 +26,12 @@
   written so far **together with** the error, so "an error is reported before any byte is written"
   is a statement about the model and not a by-product of a result type.
 
-  Outside the model (reported as `Err.zeroDim`, never produced by the harness generators): 0-d
-  columns, for which `np.prod(())` is the float `1.0` — the real code then writes a float64 count and
-  fails in `[:]`.
+  Inputs outside the property's quantifier are modelled as the code behaves, too:
+  * no input file: `N = 0` is written, then `field_width` is unbound (`UnboundLocalError`);
+  * a 0-d column: `np.prod(())` is the float `1.0`, so `N` becomes a float64 — the real code writes the
+    count as a float64, the width, the arrays of the files before the first 0-d one, and then fails in
+    `[:]` (`IndexError`).
+  The command line (`main`) is modelled by `parseArgv` / `cli`.
 -/
 import AbacusVerif.Model.Common
 import AbacusVerif.Model.HexBytes
@@ -50,7 +53,7 @@ inductive Err where
   | missingField (file : Nat) (field : String) -- ValueError: field not in the i-th file
   | unboundWidth                               -- no input file: `field_width` is never assigned
   | keyError                                   -- af[data_key][field] on an absent field
-  | zeroDim                                    -- 0-d column: outside the model
+  | indexError                                 -- `[:]` on a 0-d column
   deriving Repr, DecidableEq
 
 def Err.toString : Err → String
@@ -59,7 +62,7 @@ def Err.toString : Err → String
   | .missingField i f => s!"missing-field:{i}:{f}"
   | .unboundWidth => "unbound-width"
   | .keyError => "key-error"
-  | .zeroDim => "zero-dim"
+  | .indexError => "index-error"
 
 /-- what the caller of `unpack_to_pipe` can observe on the pipe, and the exception if any -/
 structure Result where
@@ -107,14 +110,28 @@ def columnsOf : List Tree → String → Option (List Column)
 def le64 (n : Nat) : Bytes := leBytes 8 n
 def le32 (n : Nat) : Bytes := leBytes 4 n
 
+/-- the 8 bytes of the float64 equal to the integer `v` (exact for `v < 2^53`): what
+`pipe.write(np.float64(v))` writes -/
+def f64le (v : Nat) : Bytes :=
+  if v = 0 then leBytes 8 0
+  else
+    let e := Nat.log2 v
+    leBytes 8 ((1023 + e) * 2 ^ 52 + (v * 2 ^ (52 - e) - 2 ^ 52))
+
 /-- the bytes written for one field, or (bytes written before the failure, error) -/
 def fieldRecord (afs : List Tree) (field : String) : Except (Bytes × Err) Bytes :=
   match columnsOf afs field with
   | none => .error ([], .keyError)
   | some cols =>
-    if cols.any (fun c => c.shape.isEmpty) then .error ([], .zeroDim)
+    let n := (cols.map Column.count).sum
+    if cols.any (fun c => c.shape.isEmpty) then
+      -- `N` is a float64 from the first 0-d column on; `[:]` fails on that column
+      match cols.getLast? with
+      | none => .error (f64le n, .unboundWidth)
+      | some last =>
+        .error (f64le n ++ (le32 last.itemsize ++
+          ((cols.takeWhile (fun c => !c.shape.isEmpty)).map (·.raw)).flatten), .indexError)
     else
-      let n := (cols.map Column.count).sum
       match cols.getLast? with
       | none => .error (le64 n, .unboundWidth)
       | some last => .ok (le64 n ++ (le32 last.itemsize ++ (cols.map (·.raw)).flatten))
@@ -140,6 +157,138 @@ def emit (isatty : Bool) (files : List (Option Tree)) (fields : List String) : R
       match validateFields afs 0 fields with
       | some e => { written := [], err := some e, closed := false }
       | none => emitFields afs fields
+
+/-! ### the command line (`main`)
+
+```python
+parser.add_argument('asdf-file', nargs='+')
+parser.add_argument('-f', '--field', action='append')
+parser.add_argument('--nthread', type=int, default=4)
+args = vars(parser.parse_args()); args['asdf_fns'] = args.pop('asdf-file'); args['fields'] = args.pop('field')
+unpack_to_pipe(**args)        # pipe = sys.stdout.buffer, verbose = True (stderr only)
+```
+argparse, as far as the harness exercises it: `-f V`, `-fV`, `--field V`, `--field=V` and unique prefixes
+of the long options, `--nthread N` / `--nthread=N` (`N` must be an integer), `--` (everything after it is
+positional); option values must not look like options; the positionals must form one contiguous group
+and there must be at least one; anything else is a usage error (exit status 2, nothing on stdout).
+`nthread` and `verbose` do not influence the bytes; without any `-f` the field list is `None` and the
+call dies with a `TypeError` before writing. -/
+
+inductive Tok where
+  | dashdash
+  | optF (attached : Option String)
+  | optN (attached : Option String)
+  | help
+  | unknown
+  | plain (s : String)
+  deriving Repr, DecidableEq
+
+/-- `name` is a non-empty prefix of `full` (argparse accepts unique abbreviations of long options) -/
+def isAbbrev (name : List Char) (full : String) : Bool := !name.isEmpty && name.isPrefixOf full.toList
+
+/-- decimal digits only (what the harness generates; Python's `int()` accepts more) -/
+def natOfDigits? (cs : List Char) : Option Nat :=
+  if cs.isEmpty then none
+  else cs.foldlM (fun acc c => if '0' ≤ c ∧ c ≤ '9' then some (10 * acc + (c.toNat - 48)) else none) 0
+
+/-- (string helpers are written over `List Char` so that the kernel can evaluate them in the examples) -/
+def classify (s : String) : Tok :=
+  let cs := s.toList
+  if s = "--" then .dashdash
+  else if s = "-f" then .optF none
+  else if s = "-h" then .help
+  else if ['-', '-'].isPrefixOf cs then
+    let body := cs.drop 2
+    let name := (body.span (· ≠ '=')).1
+    let val : Option String :=
+      match (body.span (· ≠ '=')).2 with
+      | [] => none
+      | _ :: v => some (String.ofList v)
+    if isAbbrev name "field" then .optF val
+    else if isAbbrev name "nthread" then .optN val
+    else if isAbbrev name "help" && val.isNone then .help
+    else .unknown
+  else if ['-', 'f'].isPrefixOf cs then .optF (some (String.ofList (cs.drop 2)))
+  else if ['-'].isPrefixOf cs then .unknown
+  else .plain s
+
+structure CliArgs where
+  fields : Option (List String)
+  files : List String
+  nthread : Nat
+  deriving Repr, DecidableEq
+
+inductive Parsed where
+  | usage                    -- argparse error: exit status 2
+  | help                     -- help text on stdout, exit status 0 (text not modelled)
+  | run (a : CliArgs)
+  deriving Repr, DecidableEq
+
+/-- parser state: fields so far, nthread, positionals so far, "an option was seen after the
+positional group started", "after `--`" -/
+structure PState where
+  fields : Option (List String) := none
+  nthread : Nat := 4
+  files : List String := []
+  closed : Bool := false
+  raw : Bool := false
+
+def PState.addField (st : PState) (v : String) : PState :=
+  { st with fields := some (st.fields.getD [] ++ [v]), closed := st.closed || !st.files.isEmpty }
+
+def PState.addFile (st : PState) (v : String) : Option PState :=
+  if st.closed then none else some { st with files := st.files ++ [v] }
+
+/-- does the token qualify as the value of an option? (it must not look like an option) -/
+def isValue (s : String) : Bool := !((['-'] : List Char).isPrefixOf s.toList) || s = "-"
+
+def parseLoop : Nat → PState → List String → Parsed
+  | _, st, [] => if st.files.isEmpty then .usage else .run ⟨st.fields, st.files, st.nthread⟩
+  | 0, _, _ :: _ => .usage
+  | fuel + 1, st, t :: rest =>
+    if st.raw then
+      match st.addFile t with
+      | none => .usage
+      | some st' => parseLoop fuel st' rest
+    else
+      match classify t with
+      | .dashdash => parseLoop fuel { st with raw := true } rest
+      | .help => .help
+      | .unknown => .usage
+      | .plain s =>
+        match st.addFile s with
+        | none => .usage
+        | some st' => parseLoop fuel st' rest
+      | .optF (some v) => parseLoop fuel (st.addField v) rest
+      | .optF none =>
+        match rest with
+        | v :: rest' => if isValue v then parseLoop fuel (st.addField v) rest' else .usage
+        | [] => .usage
+      | .optN (some v) =>
+        match natOfDigits? v.toList with
+        | some n => parseLoop fuel { st with nthread := n, closed := st.closed || !st.files.isEmpty } rest
+        | none => .usage
+      | .optN none =>
+        match rest with
+        | v :: rest' =>
+          match natOfDigits? v.toList with
+          | some n => parseLoop fuel { st with nthread := n, closed := st.closed || !st.files.isEmpty } rest'
+          | none => .usage
+        | [] => .usage
+
+def parseArgv (argv : List String) : Parsed := parseLoop argv.length {} argv
+
+/-- `pipe_asdf argv…` on a file system `fs` (name ↦ data dictionary): (bytes on stdout, exit status) -/
+def cli (fs : List (String × Tree)) (tty : Bool) (argv : List String) : Bytes × Nat :=
+  match parseArgv argv with
+  | .usage => ([], 2)
+  | .help => ([], 0)
+  | .run a =>
+    match a.fields with
+    | none => ([], 1)          -- RuntimeError / FileNotFoundError / TypeError('NoneType' is not iterable)
+    | some fields =>
+      let r := emit tty (a.files.map (fun fn => fs.lookup fn)) fields
+      (r.written, if r.err.isNone then 0 else 1)
 
 /-! ### the client -/
 
@@ -192,11 +341,27 @@ def showParsed : Option (List (Nat × Nat × Bytes)) → String
   | none => "none"
   | some l => if l.isEmpty then "." else ",".intercalate (l.map (fun (c, w, p) => s!"{c}:{w}:{bytesToHex p}"))
 
+def parseFsEntry? (s : String) : Option (String × Tree) :=
+  match s.splitOn "=" with
+  | [name, f] =>
+    match parseFile? f with
+    | some (some t) => some (name, t)
+    | _ => none
+  | _ => none
+
 /-- requests
 * `emit <tty 0|1> <nfiles> <file>… <field>…` → `written=<hex> err=<…> closed=<0|1> parsed=<…>`
-  (`parsed` = the client run on what was written, for the number of requested fields) -/
+  (`parsed` = the client run on what was written, for the number of requested fields)
+* `cli <tty 0|1> <name>=<file>… @@ <argv>…` → `stdout=<hex> exit=<n>` -/
 def handle (args : List String) : String :=
   match args with
+  | "cli" :: tty :: rest =>
+    match parseBool? tty, (rest.takeWhile (· ≠ "@@")).mapM parseFsEntry? with
+    | some tty, some fs =>
+      let argv := (rest.dropWhile (· ≠ "@@")).drop 1
+      let (out, code) := cli fs tty argv
+      s!"stdout={bytesToHex out} exit={code}"
+    | _, _ => "bad-op"
   | "emit" :: tty :: nf :: rest =>
     match parseBool? tty, parseNat? nf with
     | some tty, some nf =>
